@@ -64,8 +64,17 @@ pub fn gen_stream(cx: &Cx) -> (Vec<u8>, Vec<&'static str>) {
     for i in 0..nlines {
         match cx.draw(8) {
             0..=4 => {
-                out.extend(gen_frame(cx).to_bytes_with_newline());
-                kinds.push("frame");
+                if cx.chance(1, 24) {
+                    // a valid frame line with something in front of its colon that text tools put there
+                    // (a UTF-8 byte-order mark, a prompt, an XON): not a valid line, whatever follows
+                    cx.probe("frame_line_with_a_text_prefix");
+                    out.extend_from_slice(*cx.pick(&[&b"\xEF\xBB\xBF"[..], b"\xFF\xFE", b"> ", b"\x11", b"\x1B[0m", b"::"]));
+                    out.extend(gen_frame(cx).to_bytes_with_newline());
+                    kinds.push("frame-with-text-prefix");
+                } else {
+                    out.extend(gen_frame(cx).to_bytes_with_newline());
+                    kinds.push("frame");
+                }
             }
             5 => {
                 // damaged frame line
@@ -122,6 +131,13 @@ pub fn gen_stream(cx: &Cx) -> (Vec<u8>, Vec<&'static str>) {
                     g.extend_from_slice(b"\r\n");
                     out.extend(g);
                     kinds.push("non-ascii-digits");
+                    continue;
+                }
+                if cx.chance(1, 6) {
+                    // a line of plain text, as modems, boot loaders and terminal servers emit them
+                    cx.probe("line_of_plain_text");
+                    out.extend_from_slice(*cx.pick(&[&b"OK\r\n"[..], b"CONNECT\r\n", b"RING\r\n", b"NO CARRIER\r\n", b"ERROR\r\n", b"AT\r\n", b"+++\r\n", b"CONNECT 19200\r\n", b"login: \r\n", b":\r\n", b"#\r\n"]));
+                    kinds.push("text-line");
                     continue;
                 }
                 let mut g = cx.bytes(n);
